@@ -182,6 +182,17 @@ def handle (st : DState) (kw : String) (toks : List Nat) : DState × String :=
         match e with
         | .needsVersion n v => [0, n, v + 1]
         | .unused n v => [1, n, optKey v])))
+  | "auditas" =>
+    -- check_audit_as_crates_io with network (Vet/Model/Registry.lean `checkAuditAs`)
+    match run (pair (list (pair nat optNat)) (list firstParty)) toks with
+    | none => (st, "bad-case")
+    | some (pe, pkgs) =>
+      let errs := Reg.checkAuditAs pe pkgs
+      (st, "ok " ++ show_ (errs.length :: errs.flatMap (fun e =>
+        match e with
+        | .unusedAuditAs n => [0, n, 0]
+        | .needsAuditAs n v => [1, n, v + 1]
+        | .shouldntBeAuditAs n v => [2, n, v + 1])))
   | "cmdmode" =>
     -- the mode a command hands to the updater for crate `name` (Vet/Model/Commands.lean)
     match toks with
